@@ -186,12 +186,14 @@ func c05Eval(k *h.Case, prog *spec.Program, src string, cands []int, nStates int
 	}
 	if !ro.OK() {
 		k.Count("rejected", 1)
+		rejectedValid(k, prog, ro, true)
 		if ro.ErrString() != rn.ErrString() {
 			k.Violation("error-differs", fmt.Sprintf("errors differ: optimize=true %q, optimize=false %q", ro.ErrString(), rn.ErrString()), nil)
 		}
 		return
 	}
 	if rerr != nil {
+		acceptedUnmatched(k)
 		return
 	}
 	k.Count("accepted", 1)
